@@ -1,6 +1,7 @@
 package psetv2
 
 import (
+	"crypto/sha256"
 	"bytes"
 	"encoding/base64"
 	"encoding/hex"
@@ -446,6 +447,9 @@ func (p *Pset) getHashAndScriptForSignature(
 		}
 		prevout := input.NonWitnessUtxo.Outputs[prevoutIndex]
 		if input.RedeemScript != nil {
+			if !isRedeemScriptOf(input.RedeemScript, prevout.Script) {
+				return nil, nil, fmt.Errorf("redeem script does not match the spent script")
+			}
 			script = input.RedeemScript
 		} else {
 			script = prevout.Script
@@ -457,6 +461,11 @@ func (p *Pset) getHashAndScriptForSignature(
 			if input.WitnessScript == nil {
 				return nil, nil, fmt.Errorf(
 					"segwit input needs witnessScript if not p2wpkh",
+				)
+			}
+			if !isWitnessScriptOf(input.WitnessScript, script) {
+				return nil, nil, fmt.Errorf(
+					"witness script does not match the witness program",
 				)
 			}
 			hash = unsignedTx.HashForWitnessV0(
@@ -483,6 +492,9 @@ func (p *Pset) getHashAndScriptForSignature(
 		}
 	} else if input.WitnessUtxo != nil {
 		if input.RedeemScript != nil {
+			if !isRedeemScriptOf(input.RedeemScript, input.WitnessUtxo.Script) {
+				return nil, nil, fmt.Errorf("redeem script does not match the spent script")
+			}
 			script = input.RedeemScript
 		} else {
 			script = input.WitnessUtxo.Script
@@ -498,6 +510,11 @@ func (p *Pset) getHashAndScriptForSignature(
 				inputIndex, pay.Script, input.WitnessUtxo.Value, sighash,
 			)
 		case address.P2WshScript:
+			if !isWitnessScriptOf(input.WitnessScript, script) {
+				return nil, nil, fmt.Errorf(
+					"witness script does not match the witness program",
+				)
+			}
 			hash = unsignedTx.HashForWitnessV0(
 				inputIndex, input.WitnessScript, input.WitnessUtxo.Value, sighash,
 			)
@@ -510,6 +527,26 @@ func (p *Pset) getHashAndScriptForSignature(
 	}
 
 	return hash[:], script, nil
+}
+
+// isRedeemScriptOf reports whether spent is a P2SH script committing to redeem.
+func isRedeemScriptOf(redeem, spent []byte) bool {
+	if len(spent) != 23 || spent[0] != txscript.OP_HASH160 ||
+		spent[1] != txscript.OP_DATA_20 || spent[22] != txscript.OP_EQUAL {
+		return false
+	}
+	return bytes.Equal(payment.Hash160(redeem), spent[2:22])
+}
+
+// isWitnessScriptOf reports whether program is a v0 P2WSH script committing to
+// witnessScript.
+func isWitnessScriptOf(witnessScript, program []byte) bool {
+	if len(program) != 34 || program[0] != txscript.OP_0 ||
+		program[1] != txscript.OP_DATA_32 {
+		return false
+	}
+	h := sha256.Sum256(witnessScript)
+	return bytes.Equal(h[:], program[2:])
 }
 
 func (p *Pset) verifyScriptForPubKey(script, pubKey []byte) (bool, error) {
